@@ -149,7 +149,7 @@ func ruleAuthGate(r *Run) {
 			tokOK := false
 			for i, ev := range path.Events {
 				if ev.Kind == EvCall && ev.Callee == verifyUser {
-					c := r.P.Canon(gate, ev.Call.Args[0])
+					c := r.P.Canon(ev.Fn, ev.Call.Args[0])
 					tokOK = strings.HasPrefix(c, "call:http.GetUserTokenFromHTTPRequest(param:lit@") && strings.HasSuffix(c, ".#1)")
 				}
 				if ev.Kind == EvGuard {
@@ -426,67 +426,78 @@ func ruleReceiptFlow(r *Run) {
 		}
 		r.Check("I5", vf.Name+":has-accept", nOK == 1, vf.Body.Pos(), "VerifyPayload has exactly one accepting return (%d)", nOK)
 	}
-	// ForwardToNCS: one PostReceipt of the payload handed in, no loop
+	// ForwardToNCS: one PostReceipt of the payload handed in, no loop — examined on the paths of the
+	// forwarding code itself and of what it starts with `go` (a literal or a glue function)
 	if ff := r.P.Funcs[forward]; ff != nil {
 		post := r.P.LookupFunc(pkgNCS, "NCSClient", "PostReceipt")
-		n := 0
-		loops := false
-		for _, lf := range append(r.litsUnder(ff), ff) {
-			ast.Inspect(lf.Body, func(nd ast.Node) bool {
-				switch v := nd.(type) {
-				case *ast.ForStmt, *ast.RangeStmt:
-					loops = true
-				case *ast.CallExpr:
-					if f, _ := calleeObj(lf.Info(), v).(*types.Func); f != nil && f.Name() == "PostReceipt" && (post == nil || f == post) {
-						n++
-						c := r.P.Canon(lf, v.Args[1])
-						r.Check("I5", ff.Name+":posts-payload", c == "param:#1", v.Pos(), "the payload posted to the credit service is the one handed in (%s)", c)
-					}
-				case *ast.FuncLit:
-					return lf.Lit != v && false
-				}
-				return true
-			})
-			break
+		type body struct {
+			fn      *Func
+			payload string // canonical form of the payload inside this body
 		}
-		// count across the literal too
-		n = 0
+		bodies := []body{{ff, "param:#1"}}
 		ast.Inspect(ff.Body, func(nd ast.Node) bool {
-			if c, ok := nd.(*ast.CallExpr); ok {
-				if se, ok := ast.Unparen(c.Fun).(*ast.SelectorExpr); ok && se.Sel.Name == "PostReceipt" {
-					n++
+			gs, ok := nd.(*ast.GoStmt)
+			if !ok {
+				return true
+			}
+			if lit, isLit := ast.Unparen(gs.Call.Fun).(*ast.FuncLit); isLit {
+				if lf := r.P.Lits[lit]; lf != nil {
+					bodies = append(bodies, body{lf, "param:#1"}) // captures ForwardToNCS's own parameter
 				}
-			}
-			if _, ok := nd.(*ast.ForStmt); ok {
-				loops = true
-			}
-			if _, ok := nd.(*ast.RangeStmt); ok {
-				loops = true
+			} else if g, _ := calleeObj(ff.Info(), gs.Call).(*types.Func); g != nil && r.P.isGlue(g) {
+				if gd := r.P.Funcs[g]; gd != nil {
+					pl := ""
+					for k, a := range gs.Call.Args {
+						if r.P.Canon(ff, a) == "param:#1" {
+							pl = fmt.Sprintf("param:#%d", k)
+						}
+					}
+					bodies = append(bodies, body{gd, pl})
+				}
 			}
 			return true
 		})
-		r.Check("I5", ff.Name+":once", n == 1 && !loops, ff.Body.Pos(), "forwarding posts the receipt exactly once, without retry loop (%d post sites, loops %v)", n, loops)
-		// and on every path of the forwarding code the post is executed at most once (closures and
-		// helpers looked into): a retry after an error can deliver an accepted receipt twice
-		for _, lf := range append(r.litsUnder(ff), ff) {
-			if lf.Lit != nil && lf.Outer != ff {
-				continue // nested literals are seen inlined in their parent's paths
-			}
-			for _, path := range r.Paths(lf) {
+		total := 0
+		for _, bd := range bodies {
+			for _, path := range r.Paths(bd.fn) {
 				path := path
 				r.at(&path)
 				k := 0
+				var loopStack []bool
 				for _, ev := range path.Events {
-					if ev.Kind == EvCall {
-						if f, ok := ev.Callee.(*types.Func); ok && f.Name() == "PostReceipt" && (post == nil || f == post) {
-							k++
+					switch ev.Kind {
+					case EvEnter:
+						loopStack = append(loopStack, ev.Loop)
+						continue
+					case EvExit:
+						if n := len(loopStack); n > 0 {
+							loopStack = loopStack[:n-1]
 						}
+						continue
 					}
+					if ev.Kind != EvCall {
+						continue
+					}
+					f, ok := ev.Callee.(*types.Func)
+					if !ok || f.Name() != "PostReceipt" || (post != nil && f != post) {
+						continue
+					}
+					k++
+					total++
+					inLoop := ev.Loop
+					for _, l := range loopStack {
+						inLoop = inLoop || l
+					}
+					c := r.P.Canon(ev.Fn, ev.Call.Args[1])
+					r.CheckT("I5", ff.Name+":posts-payload", bd.payload != "" && c == bd.payload, ev.Pos, &path, "the payload posted to the credit service is the one handed in (%s)", c)
+					r.CheckT("I5", ff.Name+":once", !inLoop, ev.Pos, &path, "forwarding posts the receipt once, not in a retry loop")
 				}
-				r.CheckT("I5", ff.Name+":at-most-once-per-path", k <= 1, lf.Body.Pos(), &path, "a receipt is posted to the credit service at most once on every path (%d times here): a second attempt after an error can deliver an accepted receipt twice", k)
+				r.CheckT("I5", ff.Name+":at-most-once-per-path", k <= 1, bd.fn.Body.Pos(), &path, "a receipt is posted to the credit service at most once on every path (%d times here): a second attempt after an error can deliver an accepted receipt twice", k)
 			}
 		}
+		r.Check("I5", ff.Name+":posts", total >= 1, ff.Body.Pos(), "forwarding posts the receipt to the credit service")
 	}
+
 	// the channel the handler queues on is the one the worker drains (wired in cmd.main)
 	if main := r.modelFunc("cmd.main"); main != nil {
 		var chanVar string
